@@ -157,6 +157,8 @@ def evaluate__namespace_uri_for_prefix(
     elem = self.get_argument(context, index=1)
     if not isinstance(elem, ElementNode):
         raise self.error('FORG0006', '2nd argument %r is not an element node' % elem)
+    if prefix == 'xml':
+        return AnyURI(XML_NAMESPACE)  # always in scope on every element
     if not isinstance(elem, EtreeElementNode):
         return []
 
